@@ -21,4 +21,24 @@ PROPS = {
         "assumptions": ["row.keys is write-only in the source and does not influence behaviour",
                         "Go map iteration order: Import(map) with several new keys inserts them in an unspecified order; the harness feeds the model the order the implementation used"],
     },
+    "C09": {
+        "kind": "c09",
+        "module": "Props.C09",
+        "namespace": "Jl.C09",
+        "extra_theorem_files": [("Proofs.CastInt", "Jl")],
+        "rule": ("10 integer casters x sources: every int8/uint8 value (exhaustive), int16/uint16 within 260 of every power of "
+                 "two plus a 1/40 sample (thorough: exhaustive), every value within 2 of every power of two and type bound "
+                 "carried by every Go integer type that holds it, by decimal text and by json.Number; float64/float32 within "
+                 "2 ulps of every power of two up to 2^65, +-0.5 and +-1 around them, NaN payloads, +-Inf, +-0, subnormals, "
+                 "extremes; non-canonical and non-numeric text; uniformly random values. Each case is cast by the real code "
+                 "and by the interpreter of the regenerated tables; the oracle CastSpec.intCastViolation (exact value or "
+                 "error; integral values that fit succeed) is applied to the implementation's result. distinct = distinct "
+                 "(caster, source) pairs; all are non-trivial (each exercises one branch of one caster)"),
+        "trusted_base": [KERNEL, EXTRACT, CORR,
+                         "lean/Model/Cast.lean: interpreter of the extracted branch language (hand-written; validated by correspondence on every case)",
+                         "lean/Model/Float.lean: exact decoding of IEEE-754 bit patterns (hand-written port)",
+                         "lean/Model/IntText.lean: port of strconv.ParseInt/ParseUint base 0 (validated against strconv by correspondence)"],
+        "assumptions": ["amd64: int and uint are 64 bits wide",
+                        "text sources: the theorem fixes the parse call (base 0, the target's bit size, sentinel); that strconv's result is the exact value of canonical decimal text is shown for the ported parser in C12 and validated against strconv"],
+    },
 }
